@@ -1,4 +1,5 @@
 import GlyModel.Api.Convert
+import GlyProofs.Api.Lines
 /-
   C09 — Batch conversion is total, aligned, ordered and verbatim. (Property theorems only.)
 -/
@@ -73,5 +74,22 @@ theorem C09_example :
     (convert (fun f xs => xs.map f) conv (some (.str ['G'])) (some [.other 0, .str ['x']]) none (some [.str ['G']]) .returning .none_
         ⟨false, [], []⟩).1 matches .list [(.str ['G'], ['O']), (.other 0, []), (.str ['x'], []), (.str ['G'], ['O'])] := by
   decide
+
+/-- **A glycan file is one glycan per line** (Model of `[l.strip() for l in open(f).readlines()]`, tied to converter.py by giving the
+    driver the raw file content): glycans without line terminators and without leading / trailing white space, written one per
+    line, are read back as exactly that list in that order – so the file argument contributes exactly those inputs. -/
+theorem C09_file_lines_roundtrip (gs : List (List Char)) (h : ∀ g ∈ gs, NoNL g)
+    (h1 : ∀ g ∈ gs, ∀ x, g.head? = some x → isSpace x = false)
+    (h2 : ∀ g ∈ gs, ∀ x, g.getLast? = some x → isSpace x = false) :
+    readLines (gs.flatMap (· ++ ['\n'])) = gs :=
+  readLines_roundtrip gs h h1 h2
+
+/-- Line terminators: `\n`, `\r\n` and `\r` end a line, nothing else does (form feed, `\x1c`–`\x1e`, `\x85`, U+2028 stay inside the
+    line – `str.splitlines()` would split there), and a trailing terminator starts no further line. -/
+theorem C09_line_terminators :
+    splitLines "Glc\nMan\r\nGal\rFuc".toList = ["Glc".toList, "Man".toList, "Gal".toList, "Fuc".toList] ∧
+    splitLines "Glc\x0cMan\x1cGal\u2028Fuc\n".toList = ["Glc\x0cMan\x1cGal\u2028Fuc".toList] ∧
+    splitLines "Glc\n\n".toList = ["Glc".toList, []] ∧ splitLines [] = [] := by
+  decide +kernel
 
 end Gly.Props.C09
